@@ -19,6 +19,7 @@ import (
 	c19bytes "bytes"
 	c19json "encoding/json"
 	c19fmt "fmt"
+	c19os "os"
 	c19runtime "runtime"
 	c19strings "strings"
 	c19sync "sync"
@@ -99,6 +100,18 @@ type c19Case struct {
 	GaugeAfter            int    `json:"gauge_after"`
 	NodeFound             bool   `json:"node_found"`
 	EscapedPanic          string `json:"escaped_panic"`
+	// the resource node's own event sums (each case has a resource of its own, so they start at 0);
+	// they also see entries made on a private slot chain, which the recorder cannot
+	NodePass          int  `json:"node_pass"`
+	NodeBlock         int  `json:"node_block"`
+	NodeComplete      int  `json:"node_complete"`
+	NodeError         int  `json:"node_error"`
+	PrivateChain      bool `json:"private_chain"`
+	FallbackAvailable bool `json:"fallback_available"`
+	// order of slot callbacks and handler / fallback calls for the resource, e.g. "passed,handler,completed"
+	Seq string `json:"seq"`
+	// request made earlier on the same resource ("" = none): thorough tier, two-request histories
+	History string `json:"history"`
 	Notes                 string `json:"notes,omitempty"`
 }
 
@@ -123,6 +136,7 @@ func (r *c19Recorder) mark(kind, resource string) {
 // c19Rules installs the rule set of one case: exactly one blocking rule for
 // the resource when admitted=false, no rule at all when admitted=true.
 func c19Rules(t *c19testing.T, resource string, admitted bool) {
+	c19TakeBase(resource)
 	rules := []*c19flow.Rule{}
 	if !admitted {
 		rules = append(rules, &c19flow.Rule{Resource: resource, Threshold: 0})
@@ -131,6 +145,31 @@ func c19Rules(t *c19testing.T, resource string, admitted bool) {
 		t.Fatalf("driver set-up: c19flow.LoadRules: %v", err)
 	}
 }
+
+// c19Base is what the resource's node and the recorder log showed when the case began: every case
+// is judged on the difference, so that the second request of a history is judged like a first one.
+type c19BaseT struct{ pass, block, complete, err, logLen int }
+
+var c19Base c19BaseT
+
+func c19TakeBase(resource string) {
+	c19Base = c19BaseT{}
+	if n := c19stat.GetResourceNode(resource); n != nil {
+		c19Base.pass = int(n.GetSum(c19base.MetricEventPass))
+		c19Base.block = int(n.GetSum(c19base.MetricEventBlock))
+		c19Base.complete = int(n.GetSum(c19base.MetricEventComplete))
+		c19Base.err = int(n.GetSum(c19base.MetricEventError))
+	}
+	c19Rec.mu.Lock()
+	c19Base.logLen = len(c19Rec.log)
+	c19Rec.mu.Unlock()
+}
+
+// pair mode (C19_PAIRS=1): c19PairTag makes all cases of one history share a resource
+var (
+	c19PairTag string
+	c19History string
+)
 
 // c19PanicOrigin holds "func@file:line" of the frame that raised the panic
 // last caught by c19Guard ("" if none); c19Finish moves it into the notes.
@@ -169,7 +208,7 @@ func c19Guard(f func()) (escaped string) {
 func c19Finish(t *c19testing.T, c *c19Case) {
 	seq := ""
 	c19Rec.mu.Lock()
-	for _, e := range c19Rec.log {
+	for _, e := range c19Rec.log[c19Base.logLen:] {
 		if e.res != c.Resource {
 			continue
 		}
@@ -194,6 +233,7 @@ func c19Finish(t *c19testing.T, c *c19Case) {
 		c.Notes += "; "
 	}
 	c.Notes += "seq=[" + seq + "]"
+	c.Seq = seq
 	if c19PanicOrigin != "" {
 		c.Notes += "; panic_origin=" + c19PanicOrigin
 		c19PanicOrigin = ""
@@ -201,7 +241,14 @@ func c19Finish(t *c19testing.T, c *c19Case) {
 	if n := c19stat.GetResourceNode(c.Resource); n != nil {
 		c.NodeFound = true
 		c.GaugeAfter = int(n.CurrentConcurrency())
+		c.NodePass = int(n.GetSum(c19base.MetricEventPass)) - c19Base.pass
+		c.NodeBlock = int(n.GetSum(c19base.MetricEventBlock)) - c19Base.block
+		c.NodeComplete = int(n.GetSum(c19base.MetricEventComplete)) - c19Base.complete
+		c.NodeError = int(n.GetSum(c19base.MetricEventError)) - c19Base.err
 	}
+	c.History = c19History
+	c.PrivateChain = c19strings.Contains(c.Notes, "private slot chain")
+	c.FallbackAvailable = !c19strings.Contains(c.Notes, "fallback_option_available=false")
 	var buf c19bytes.Buffer
 	enc := c19json.NewEncoder(&buf)
 	enc.SetEscapeHTML(false) // keep "<nil>" readable
@@ -249,12 +296,38 @@ func c19Matrix(f func(admitted, fallback bool, handler string)) {
 			}
 		}
 	}
+	if c19os.Getenv("C19_PAIRS") == "" {
+		return
+	}
+	// every ordered pair: a first request (decision x handler, default rejection) and then each of
+	// the 12 inputs as the second request on the SAME resource
+	n := 0
+	for _, adm1 := range c19Bools {
+		for _, h1 := range c19Handlers {
+			for _, admitted := range c19Bools {
+				for _, fallback := range c19Bools {
+					for _, handler := range c19Handlers {
+						n++
+						c19PairTag = c19fmt.Sprint(n)
+						c19History = ""
+						f(adm1, false, h1)
+						c19History = c19fmt.Sprintf("adm%t-%s", adm1, h1)
+						f(admitted, fallback, handler)
+						c19PairTag, c19History = "", ""
+					}
+				}
+			}
+		}
+	}
 }
 
 var c19Bools = []bool{true, false}
 var c19Handlers = []string{"ok", "err", "panic"}
 
 func c19Name(ep string, admitted, fallback bool, handler string) string {
+	if c19PairTag != "" {
+		return c19fmt.Sprintf("c19-%s-pair%s", ep, c19PairTag)
+	}
 	return c19fmt.Sprintf("c19-%s-adm%t-fb%t-%s", ep, admitted, fallback, handler)
 }
 
@@ -278,8 +351,8 @@ func c19GinCase(t *testing.T, admitted, fallback bool, handler string) {
 		AdmittedExpected:      admitted,
 		Fallback:              fallback,
 		Handler:               handler,
-		HandlerCanReturnError: true,
-		Notes:                 "gin.New() without Recovery; err = c.Error(err)+status 500",
+		HandlerCanReturnError: false,
+		Notes:                 "gin.New() without Recovery; gin.HandlerFunc has no error result: err = c.Error(err)+status 500",
 	}
 	c19Rules(t, c.Resource, admitted)
 
